@@ -55,6 +55,7 @@ from psyclone.psyir.nodes.reference import Reference
 from psyclone.psyir.nodes.schedule import Schedule
 from psyclone.psyir.nodes.statement import Statement
 from psyclone.psyir.nodes.structure_reference import StructureReference
+from psyclone.psyir.symbols import DataSymbol
 from psyclone.psyir.symbols.datatypes import ScalarType
 
 
@@ -107,6 +108,11 @@ class Directive(Statement, metaclass=abc.ABCMeta):
 
             if isinstance(sym.datatype, ScalarType):
                 # We ignore scalars as these are typically copied by value.
+                continue
+
+            if isinstance(sym, DataSymbol) and sym.is_constant:
+                # Named constants (parameters) are not variables and must
+                # not appear in data-movement clauses.
                 continue
 
             if var_info.has_read_write(sig):
